@@ -24,6 +24,8 @@ type zzInode struct {
 type zzFS struct {
 	names     map[string]*zzInode
 	open      map[*os.File]*zzInode
+	off       map[*os.File]int64 // write position of every open handle (no O_APPEND)
+	clobbered bool               // a write landed before the end of existing content
 	rotated   []*zzInode // in rename order
 	overwrote bool
 	failOpen  bool
@@ -51,6 +53,10 @@ func zzStubOpenFile(name string, flag int, perm os.FileMode) (*os.File, error) {
 	}
 	f := new(os.File)
 	zzfs.open[f] = ino
+	if zzfs.off == nil {
+		zzfs.off = map[*os.File]int64{}
+	}
+	zzfs.off[f] = 0
 	return f, nil
 }
 func zzStubStat(name string) (os.FileInfo, error) {
@@ -78,12 +84,35 @@ func zzStubFileWrite(f *os.File, b []byte) (int, error) {
 	if ino == nil || ino.closed && false {
 		return 0, os.ErrClosed
 	}
+	// the file is opened without O_APPEND: the bytes go to the handle's position
+	if zzfs.off[f] != ino.prev+int64(len(ino.data)) {
+		zzfs.clobbered = true
+	}
 	ino.data = append(ino.data, b...)
+	zzfs.off[f] = ino.prev + int64(len(ino.data))
 	return len(b), nil
 }
 func zzStubFileSeek(f *os.File, off int64, whence int) (int64, error) {
 	ino := zzfs.open[f]
-	return ino.prev + int64(len(ino.data)), nil
+	size := ino.prev + int64(len(ino.data))
+	switch whence {
+	case 0:
+		zzfs.off[f] = off
+	case 1:
+		zzfs.off[f] += off
+	default:
+		zzfs.off[f] = size + off
+	}
+	return zzfs.off[f], nil
+}
+
+// Stat on an open handle succeeds even when the name is gone (POSIX)
+func zzStubFileStat(f *os.File) (os.FileInfo, error) {
+	ino := zzfs.open[f]
+	if ino == nil {
+		return nil, os.ErrClosed
+	}
+	return zzFInfo{ino.prev + int64(len(ino.data))}, nil
 }
 func zzStubFileSync(f *os.File) error  { return nil }
 func zzStubFileClose(f *os.File) error { return nil }
@@ -179,6 +208,7 @@ func zzH_C07_write() {
 	var files []zzFileView
 	if zzSymbolic() {
 		zzAssert(!zzfs.overwrote, "rotation never overwrites an earlier rotated file")
+		zzAssert(!zzfs.clobbered, "events already in the log are never overwritten (writes go to the end of the file)")
 		for _, ino := range zzfs.rotated {
 			files = append(files, zzFileView{ino.prev, ino.data})
 		}
@@ -215,7 +245,18 @@ func zzNativeFiles(dir, path string, pos int64) []zzFileView {
 		v := zzFileView{0, b}
 		if first && int64(len(b)) >= pos {
 			// the oldest file is the one that held the pre-existing content
+			intact := true
+			for i := int64(0); i < pos; i++ {
+				want := byte('x')
+				if i == pos-1 {
+					want = '\n'
+				}
+				intact = intact && b[i] == want
+			}
+			zzAssert(intact, "events already in the log are never overwritten (writes go to the end of the file)")
 			v = zzFileView{pos, b[pos:]}
+		} else if first && pos > 0 {
+			zzAssert(false, "events already in the log are never overwritten (writes go to the end of the file)")
 		}
 		first = false
 		out = append(out, v)
